@@ -31,6 +31,7 @@ from mc.oracle.derived import edges_of, ideal_endpoints, tangent_aux, rows_err, 
 from mc.oracle.derived import mink as mink_rows
 
 CLASSES = ["H.Polygon", "H.Segment", "H.TangentVector", "P.Polygon"]
+INT_H_CLASSES = ["H.Segment/int", "H.TangentVector/int", "H.Polygon/int"]
 TOL = 1e-8
 RADII = [0.1, 0.35, 0.6, 0.8, 0.5, 0.25, 0.7, 0.45]
 N_DIM = 2
@@ -77,6 +78,18 @@ def unit_data(cls, k, seed):
         return np.stack([trow(k, seed), np.concatenate([[0.2], lattice.generic_dir(N_DIM, 300 + k, seed)]) * (1.0 + 0.25 * (k % 3))])
     if cls == "P.Polygon":
         return np.stack([prow(3 * k + i) for i in range(3)])
+    if cls == "H.Segment/int":
+        # integer homogeneous coordinates of two interior points (kept in an integer array by the library): the derived
+        # ideal endpoints pass through a square root and are NOT integral -- derived data has its own dtype
+        a, b, x0 = k % 3 - 1.0, (k // 3) % 3 - 1.0, 5.0 + k % 2
+        return np.array([[x0, a, b], [x0, a + 1.0 + k % 2, b - 1.0 - (k % 5) // 3]]) * (-1.0 if k % 4 == 2 else 1.0)
+    if cls == "H.TangentVector/int":
+        # integer base point (interior) and integer vector row: the projected vector is rational, not integral
+        return np.stack([np.array([3.0 + k % 3, (k * 2) % 3 - 1.0, 1.0 - k % 2]),
+                         np.array([k % 2, (1.0 + k % 3) * (-1.0 if k % 2 else 1.0), k % 5 - 2.0])])
+    if cls == "H.Polygon/int":
+        a, b, x0 = k % 3 - 2.0, (2 * k) % 4 - 2.0, 6.0 + k % 2
+        return np.array([[x0, a, b], [x0, a + 1.0 + k % 2, b], [x0, a, b + 1.0 + k % 3]])
     if cls == "P.Polygon/int":
         # integer-valued polygons (kept in an integer array by the library, pinned by the suite); units handed in
         # later (setitem / stack / combine) are non-integral floats, so the assignment has to convert
@@ -89,7 +102,9 @@ def fresh_data(cls, shape, start, seed):
     N = S.size(shape)
     src = "P.Polygon" if (cls == "P.Polygon/int" and start > 0) else cls      # later units of the int class are floats
     u = np.array([unit_data(src, start + k, seed) for k in range(N)])
-    if cls == "P.Polygon/int" and start == 0:
+    if (cls == "P.Polygon/int" and start == 0) or cls in INT_H_CLASSES:
+        # the integer hyperbolic classes: EVERY unit is integer-typed (stack / combine / setitem of integer objects stay
+        # integer-typed in the primary data; mixing integer objects with float units is the subject of P.Polygon/int)
         u = u.astype(np.int64)
     return u.reshape(shape + u.shape[1:])
 
@@ -132,7 +147,7 @@ def make_T(cls, which):
 
 
 def oracle_aux(cls, data):
-    if cls in ("H.Polygon", "P.Polygon", "P.Polygon/int"):
+    if cls in ("H.Polygon", "H.Polygon/int", "P.Polygon", "P.Polygon/int"):
         return edges_of(data)
     if cls.startswith("H.Segment"):
         return ideal_endpoints(data)
@@ -175,7 +190,7 @@ def check_state(cls, obj, model, after):
         out.append(V("aux-stale/%s/%s" % (after, cls),
                      "aux_data is not what is recomputed from proj_data (sin err %.3g vs type(obj)(proj_data), %.3g vs oracle)\n"
                      "aux_data\n%r\nrecomputed\n%r" % (e1, e2, obj.aux_data, re)))
-    elif cls == "H.TangentVector":
+    elif cls.startswith("H.TangentVector"):
         ora = oracle_aux(cls, np.array(model))
         if tangent_sign_flip(obj.proj_data[..., 0, :], obj.aux_data[..., 1, :], model[..., 0, :], ora[..., 1, :]):
             out.append(V("aux-stale/direction-reversed/%s/%s" % (after, cls),
@@ -476,6 +491,9 @@ SETTERS = {
     "H.Segment/ideal": ["projective", "klein"],
     "P.Polygon": ["projective", "affine0", "affine1", "affine2"],
     "P.Polygon/int": ["projective", "affine0", "affine1", "affine2"],
+    # integer-typed hyperbolic objects: histories without coordinate setters (converting non-integral coordinates to an
+    # integer array may collapse a segment; integer objects under the setters are the subject of P.Polygon/int)
+    "H.Segment/int": [], "H.TangentVector/int": [], "H.Polygon/int": [],
 }
 
 
@@ -695,7 +713,10 @@ def case_hist(hist):
             nextops += [["stack"], ["combine"]]
         if not cx:
             nextops.append(["astype"])
-        nextops.append(["astype-same"])
+        if model.dtype.kind not in "iu" or cls not in INT_H_CLASSES:
+            # astype(<integer dtype>) on an object whose derived data is not integral is a lossy conversion requested by
+            # the caller (the library casts primary and derived data alike): not demanded
+            nextops.append(["astype-same"])
         if root.get("setters", True):
             nextops += [["set-coords", how] for how in SETTERS[cls]]
         if "/" not in cls:
@@ -736,6 +757,9 @@ def run(ctx):
                "projective_coords and the three affine charts; on an integer-typed object either dtype semantic (replace the array / convert the new "
                "coordinates) is accepted for the primary data, the derived data must agree with whichever it is; states reached through the Klein, "
                "Poincare and half-space setters from the same data coincide and are merged")
+    ctx.assume("integer-typed hyperbolic objects (H.Segment/int, H.TangentVector/int, H.Polygon/int): integer homogeneous coordinates of interior points "
+               "are in-domain primary data; the derived data is compared with the recomputation in floating point (its dtype is not demanded, its "
+               "value is, to the projective-row tolerance)")
     ctx.assume("circle parameters are not requested from complex128 objects (angles of complex coordinates are undefined; the library raises TypeError from np.arctan2)")
     ctx.assume("the library's ComplexWarning casts on complex dtype are ignored (queries on complex128 objects are executed, their values not judged)")
     ctx.tolerances["projective rows"] = "sine of the angle between rows <= 1e-8 (coordinates <= ~10, measured errors <= 1e-13; stale data differs by >= 1e-2)"
@@ -744,6 +768,15 @@ def run(ctx):
     roots = [[{"cls": c, "shape": s, "seed": ctx.seed, "setters": s != [2, 2]}] for c in CLASSES for s in ([], [2], [2, 2])]
     roots += [[{"cls": "H.Segment/ideal", "shape": s, "seed": ctx.seed}] for s in ([], [3])]
     roots += [[{"cls": "P.Polygon/int", "shape": s, "seed": ctx.seed}] for s in ([2], [2, 2])]
+    # integer-typed hyperbolic objects: the primary data is kept in an integer array while the derived data (ideal endpoints:
+    # square roots; projected vector: rational) is not integral -- every shape-changing / stacking / combining / copying
+    # operation has to keep the derived data's own dtype.  No setters, no queries (cost; covered on the float classes).
+    int_roots = [[{"cls": c, "shape": s, "seed": ctx.seed, "setters": False}] for c in INT_H_CLASSES for s in ([], [2], [2, 2])]
+    ctx.bfs("integer-object-histories", "checks.c11:case_hist", int_roots, depth=3 if q else 4, chunk=24,
+            domains={"classes": INT_H_CLASSES, "initial shapes": [[], [2], [2, 2]],
+                     "units": "integer homogeneous rows (interior points; integer vector rows), int64 arrays; units handed in later "
+                              "(setitem / stack / combine) are integer-typed too",
+                     "ops": "as object-histories without set-coords and queries"})
     ctx.bfs("object-histories", "checks.c11:case_hist", roots, depth=3 if q else 4, chunk=24,
             domains={"classes": CLASSES, "initial shapes": [[], [2], [2, 2]],
                      "extra class": "H.Segment/ideal = segments whose first endpoint is ideal (generic angle) and second interior or ideal",
